@@ -112,13 +112,25 @@ func (ru *Runner) Run(label string, total int) {
 			table = append(table, i)
 		}
 	}
-	ru.R.Parallel(label, W, func(w int) {
-		e := core.NewEng("d")
-		defer e.Close()
-		s := e.NewSess()
+	// engines and sessions are created one after the other BEFORE any worker runs: engine construction writes
+	// process-global status variables (variables.InitStatusVariables), which races with running queries and
+	// with other constructions — a harness artefact the race-built monitors must not report
+	engs := make([]*core.Eng, W)
+	sess := make([]*core.Sess, W)
+	for w := range engs {
+		engs[w] = core.NewEng("d")
+		sess[w] = engs[w].NewSess()
 		for _, q := range ru.EngSetup {
-			s.MustExec(q)
+			sess[w].MustExec(q)
 		}
+	}
+	defer func() {
+		for _, e := range engs {
+			e.Close()
+		}
+	}()
+	ru.R.Parallel(label, W, func(w int) {
+		e, s := engs[w], sess[w]
 		for b := w; b < nb; b += W {
 			rnd := ru.R.Rand(label, b)
 			var batch []pending
